@@ -448,12 +448,15 @@ func checkC11Decode(c *Check, p *Program) {
 		if !wantCtl {
 			// payload: make([]byte, L) with L = data[0]; copy from data[2:]; first byte masked to six bits
 			okP, okMask := false, false
+			var maskSt *ssa.Store
+			var copyCall *ssa.Call
 			instrsOf(tu, func(x ssa.Instruction) {
 				if call, ok := x.(*ssa.Call); ok && builtinName(call) == "copy" {
 					if sl, ok := call.Common().Args[1].(*ssa.Slice); ok && sl.X == ssa.Value(tu.Params[0]) {
 						if k, ok := constInt(sl.Low); ok && k == 2 {
 							mn, mx := pathCount(al.Block(), func(y ssa.Instruction) bool { return y == ssa.Instruction(call) }, nil)
 							okP = mn == 1 && mx == 1
+							copyCall = call
 						}
 					}
 				}
@@ -466,12 +469,16 @@ func checkC11Decode(c *Check, p *Program) {
 									// for some lengths leaves command bits in longer payloads)
 									mn, mx := pathCount(al.Block(), func(y ssa.Instruction) bool { return y == ssa.Instruction(st) }, nil)
 									okMask = mn == 1 && mx == 1
+									maskSt = st
 								}
 							}
 						}
 					}
 				}
 			})
+			if maskSt != nil && copyCall != nil && !instrDominates(copyCall, maskSt) {
+				okMask = false // masked before the payload is copied in: the copy brings the two command bits back
+			}
 			var mkLen BV
 			for _, st := range fs[fieldByName(al.Type(), "Data")] {
 				if mk, ok := st.Val.(*ssa.MakeSlice); ok {
